@@ -1,10 +1,14 @@
 #!/usr/bin/env python3
 """runs the checks that look at the touched files against behaviour-preserving refactorings written by independent sub-agents
-(/tmp/eqr/<PROP>.out/eN/patch.diff): every check must stay silent (exit 0).  usage: run_refactors.py [PROP ...]"""
+(selftest/refactors/<round>/<PROP>.out/eN/patch.diff; each comes with the agent's README giving the equivalence argument and the oracle
+demonstration it ran before and after).  No check may report a VIOLATION on any of them (that would be a false alarm); exit 2 (undecided)
+is tolerated for refactorings that replace the data structure or the algorithm behind a clause and is listed.  Each patch is applied to a
+scratch copy of /repo (never to /repo).  usage: [EQR=<round dir>] run_refactors.py [PROP ...]      exit 1 iff some check reported a violation"""
 import concurrent.futures, glob, json, os, re, sys
 sys.path.insert(0, os.path.dirname(os.path.abspath(__file__)))
 import run_mutants
-ROOT = os.environ.get('EQR', '/tmp/eqr')
+HERE = os.path.dirname(os.path.abspath(__file__))
+ROOTS = [os.environ['EQR']] if os.environ.get('EQR') else sorted(glob.glob(os.path.join(HERE, 'refactors', 'r*')))
 FILE2CHECKS = [
     (r'spvecgf2', ['C17', 'C01', 'C04']), (r'spvecfp|/fp\.hpp', ['C18']), (r'forestindex|spanning_forest', ['C16', 'C04', 'C07']),
     (r'fvs\.hpp', ['C13', 'C14']), (r'lex_dijkstra', ['C12', 'C14', 'C02', 'C01']), (r'sptrees', ['C12', 'C14', 'C01', 'C02', 'C03', 'C04', 'C07']),
@@ -32,14 +36,24 @@ def one(args):
 def main():
     props = sys.argv[1:]
     jobs = []
-    for d in sorted(glob.glob(os.path.join(ROOT, '*.out'))):
-        prop = os.path.basename(d)[:-4]
-        if props and prop not in props:
-            continue
-        for e in sorted(glob.glob(os.path.join(d, 'e*', 'patch.diff'))):
-            jobs.append((prop, os.path.basename(os.path.dirname(e)), e))
+    for root in ROOTS:
+        for d in sorted(glob.glob(os.path.join(root, '*.out'))):
+            prop = os.path.basename(d)[:-4]
+            if props and prop not in props:
+                continue
+            for e in sorted(glob.glob(os.path.join(d, 'e*', 'patch.diff'))):
+                jobs.append((prop, os.path.basename(root) + '/' + os.path.basename(os.path.dirname(e)), e))
+    silent = undecided = alarms = 0
     with concurrent.futures.ThreadPoolExecutor(max_workers=int(os.environ.get('JOBS', '4'))) as ex:
         for prop, name, r in ex.map(one, jobs):
             bad = {c: v for c, v in r.get('checks', {}).items() if v['exit'] != 0}
+            if any(v['exit'] == 1 for v in bad.values()) or not r.get('applies'):
+                alarms += 1
+            elif bad:
+                undecided += 1
+            else:
+                silent += 1
             print('%s %s applies=%s %s' % (prop, name, r.get('applies'), 'SILENT' if not bad else 'NOT-SILENT ' + json.dumps(bad)), flush=True)
+    print('refactorings: %d, silent: %d, undecided (exit 2): %d, FALSE ALARMS (exit 1): %d' % (len(jobs), silent, undecided, alarms))
+    sys.exit(1 if alarms else 0)
 main()
